@@ -117,6 +117,18 @@ def points_in_mesh(m, spec):
     t = m.t[:nv]
     cells = r.integers(0, t.shape[1], size=n)
     w = r.uniform(0.15, 1.0, size=(nv, n))
+    on = spec.get("on")
+    if on == "vertex":
+        # exactly on vertices: the owner cell is not unique there, but it
+        # must be the same for a warm and a cold mesh
+        w[:] = 0.0
+        w[r.integers(0, nv, size=n), np.arange(n)] = 1.0
+    elif on == "facet":
+        # on the facet opposite to a seeded vertex (simplices) / on an edge
+        w[r.integers(0, nv, size=n), np.arange(n)] = 0.0
+        if nv > 3:
+            w[r.integers(0, nv, size=n), np.arange(n)] = 0.0
+        w[0] += (w.sum(axis=0) == 0)
     w /= w.sum(axis=0)
     P = np.einsum("dvn,vn->dn", m.p[:, t[:, cells]], w)
     if spec.get("outside"):
@@ -127,7 +139,8 @@ def points_in_mesh(m, spec):
 
 def gen_points(rng, outside=False):
     return {"seed": rng.randrange(1 << 30), "n": rng.choice([1, 3, 3, 4, 7]),
-            "outside": outside}
+            "outside": outside,
+            "on": rng.choice([None, None, None, "vertex", "facet"])}
 
 
 def ref_points(dim, spec, ncells=None):
